@@ -76,6 +76,12 @@ def run(ctx):
             if failed_mac_checks(p):
                 rep.ob('R03.2', 'failed comparison returns InvalidLoginError', p.payload == INVALID_LOGIN,
                        'returns %s' % show(p.payload), w, sn)
+        # R03.6 the property fixes the outcome for *every* non-matching finalization: the invalid-login error.  Any other Err return must
+        # come from a failing dependency call (HMAC key set-up), never from a test of the message that runs before the comparison
+        for p in fin.err_paths:
+            dep = any(e[0] == 'outcome' and e[2] in ('Err', 'None') for e in p.events)
+            rep.ob('R03.6', 'every refusal of ServerLogin::finish is the invalid-login error (or a failing dependency call)',
+                   p.payload == INVALID_LOGIN or dep, 'returns %s after %s' % (show(p.payload)[:120], [(show(e[1])[:80], e[2]) for e in p.events if e[0] == 'assume'][:3]), w, sn)
         # no Ok path may come from a failed comparison
         for p in fin.ok_paths:
             rep.ob('R03.1', 'no Ok path passes a failed comparison', not failed_mac_checks(p), 'Ok path after failed MAC comparison', w, sn)
